@@ -38,6 +38,15 @@ J08(r, modified, devs) ==
      ELSE IF ~r.has_trailer THEN Verdict(r.rid, "C08", "reject", "no source-map trailer")
      ELSE Verdict(r.rid, "C08", IF r.v8_out = "ok" THEN "ok" ELSE "ok0", r.kind_out)
 
+(* a hooked call that keeps a literal spread argument in place: ...0, ...null (named deviation D24) *)
+RECURSIVE HasLitSpreadHook(_)
+HasLitSpreadHook(n) ==
+  \/ /\ IsHookCall(n)
+     /\ LET w == StripParen(HookWrapped(n)) IN
+          w.t = "CallExpression" /\ \E i \in 1..Len(w.c[2].c) :
+             w.c[2].c[i].t = "_arg" /\ IsSpreadArg(w.c[2].c[i]) /\ IsLit(w.c[2].c[i].c[1])
+  \/ \E k \in 1..Len(n.c) : HasLitSpreadHook(n.c[k])
+
 (* names the file prologue defines pass-throughs for:  { <name>: noop, ... }  inside the prologue statement *)
 RECURSIVE NoopKeys(_)
 NoopKeys(n) ==
@@ -98,19 +107,24 @@ JudgeOk(r) ==
      ELSE TRUE
   /\ IF m.ok /\ \E i \in siteIdx : sites[i].ns /\ sites[i].id \in hookedIds
      THEN Verdict(r.rid, "H01", "dev", {"D22-arguments-evaluated-before-absent-callee-throws"}) ELSE TRUE
+  /\ IF modified /\ HasLitSpreadHook(rout)
+     THEN Verdict(r.rid, "H01", "dev", {"D24-literal-spread-iterated-after-later-arguments"}) ELSE TRUE
   \* ---- C01 (static half) : the symbolic order of effects of the output is that of the input
   /\ IF ~modified THEN Verdict(r.rid, "C01", "na", "not modified")
      ELSE IF r.in_mentions_ns THEN Verdict(r.rid, "C01", "na", "the input mentions the hook namespace")
-     ELSE \E effOut \in {EffectsOf(rout, Injected(rout, rin), TRUE, {})} :
-          \E diff \in {FirstEffectDiff(EffectsOf(rin, {}, FALSE, {}), effOut, 1)} :
+     ELSE \E effOut \in {EffectsOf(rout, Injected(rout, rin), TRUE, {}, FALSE)} :
+          \E diff \in {FirstEffectDiff(EffectsOf(rin, {}, FALSE, {}, FALSE), effOut, 1)} :
           \E bareIds \in {{sites[i].id : i \in {j \in siteIdx : sites[j].k = "bare" /\ sites[j].id \in hookedIds}}} :
           IF diff = "" THEN Verdict(r.rid, "C01", "ok", Len(marks))
-          ELSE IF bareIds # {} /\ FirstEffectDiff(EffectsOf(rin, {}, FALSE, bareIds), effOut, 1) = ""
-               \* equal once the identifier callee of the hooked bare calls is read after their arguments
-               THEN Verdict(r.rid, "C01", "dev", {"D23-bare-callee-read-after-arguments"})
           ELSE IF D6Dev \in m.devs THEN Verdict(r.rid, "C01", "dev", {D6Dev})
           ELSE IF "dev:D7b-nonconstant-sum-operand-omitted" \in whys THEN Verdict(r.rid, "C01", "dev", {"D7b-nonconstant-sum-operand-omitted"})
-          ELSE IF HasOrigin(e, D21Mark) THEN Verdict(r.rid, "C01", "dev", {"D21-optional-call-loses-receiver"})
+          \* the other named deviations are decided by re-evaluating the INPUT with exactly that deviation: equal then
+          ELSE IF bareIds # {} /\ FirstEffectDiff(EffectsOf(rin, {}, FALSE, bareIds, FALSE), effOut, 1) = ""
+               THEN Verdict(r.rid, "C01", "dev", {"D23-bare-callee-read-after-arguments"})
+          ELSE IF FirstEffectDiff(EffectsOf(rin, {}, FALSE, {}, TRUE), effOut, 1) = ""
+               THEN Verdict(r.rid, "C01", "dev", {"D21-optional-call-loses-receiver"})
+          ELSE IF bareIds # {} /\ FirstEffectDiff(EffectsOf(rin, {}, FALSE, bareIds, TRUE), effOut, 1) = ""
+               THEN Verdict(r.rid, "C01", "dev", {"D21-optional-call-loses-receiver", "D23-bare-callee-read-after-arguments"})
           ELSE Verdict(r.rid, "C01", "reject", diff)
   \* ---- C03 (static half) : hook argument lists
   /\ IF whys \subseteq KnownDevWhys /\ whys # {} THEN Verdict(r.rid, "C03", "dev", whys)
